@@ -1,3 +1,5 @@
+import os
+
 content_types = {
     'css': 'text/css',
     'gif': 'image/gif',
@@ -42,7 +44,13 @@ def get_static_file(path, static_files):
             f = f.copy()  # in case it is mutated below
         if f['filename'].endswith('/') and extra_path.startswith('/'):
             extra_path = extra_path[1:]
+        root = f['filename']
         f['filename'] += extra_path
+        if extra_path and os.path.commonpath(
+                [os.path.abspath(root), os.path.abspath(f['filename'])]) != \
+                os.path.abspath(root):
+            # the requested path escapes the configured directory
+            return None
         if f['filename'].endswith('/'):
             if '' in static_files:
                 if isinstance(static_files[''], str):
